@@ -4,23 +4,34 @@
 -/
 import PgVerif.Model.Jsonb
 import PgVerif.Spec.Jsonb
+import PgVerif.Basic.Canon
 namespace PgVerif.Model
 open PgVerif
 
-/-- the number a `DecodeNumeric` result denotes (`none` for Go nil) -/
+/-- the number a `DecodeNumeric` result denotes (`none` for Go nil): for a ParseFloat result, the decimal its TEXT
+denotes, read by the Spec's own reader `Spec.readDecimal` (a text outside the grammar denotes nothing) -/
 def NumRes.toView : NumRes → Option Spec.NumView
   | .none => Option.none
   | .int0 => some (.exact false 0 0)
+  | .fzero => some (.exact false 0 0)
   | .special .nan => some .nan
   | .special .pinf => some .pinf
   | .special .ninf => some .ninf
-  | .num neg mant exp => some (.exact neg mant exp)
+  | .num text => (Spec.readDecimal text).map fun r => .exact r.1 r.2.1 r.2.2
+
+/-- the Go value `DecodeNumeric` returns, given strconv.ParseFloat (`pf`: text ↦ float64 bits) -/
+def NumRes.toGo (pf : ParseFloat) : NumRes → GoVal
+  | .none => .nil
+  | .int0 => .int 0
+  | .fzero => .f64 0
+  | .special s => .f64 s.bits
+  | .num text => .f64 (pf text)
 
 mutual
 def JV.toView : JV → Spec.JView
   | .nil => .null
   | .bool b => .bool b
-  | .num r => (match r.toView with | some v => .num v | Option.none => .null)
+  | .num r => (match r.toView with | some v => .num v | Option.none => .undecodable)
   | .str s => .str s
   | .arr xs => .arr (toViewList xs)
   | .obj kvs => .obj (toViewKvs kvs)
@@ -32,4 +43,63 @@ def toViewKvs : List (Bytes × JV) → List (Bytes × Spec.JView)
   | (k, v) :: rest => (k, v.toView) :: toViewKvs rest
 end
 
+mutual
+/-- the Go value `ParseJSONB` returns, given strconv.ParseFloat -/
+def JV.toGo (pf : ParseFloat) : JV → GoVal
+  | .nil => .nil
+  | .bool b => .bool b
+  | .num r => r.toGo pf
+  | .str s => .str s
+  | .arr xs => .arr (toGoList pf xs)
+  | .obj kvs => .obj (toGoKvs pf kvs)
+def toGoList (pf : ParseFloat) : List JV → List GoVal
+  | [] => []
+  | x :: xs => x.toGo pf :: toGoList pf xs
+def toGoKvs (pf : ParseFloat) : List (Bytes × JV) → List (Bytes × GoVal)
+  | [] => []
+  | (k, v) :: rest => (k, v.toGo pf) :: toGoKvs pf rest
+end
+
 end PgVerif.Model
+
+namespace PgVerif.Spec
+open PgVerif
+
+/-- a number as the Go value a correct tool returns: the float64 nearest to it -/
+def NumView.toGo (v : NumView) : GoVal := .f64 v.bits
+
+mutual
+/-- the document as the Go value a correct tool returns; numbers are float64s (JSON numbers in Go) -/
+def JView.toGo : JView → GoVal
+  | .null => .nil
+  | .bool b => .bool b
+  | .num v => v.toGo
+  | .str s => .str s
+  | .arr xs => .arr (JView.toGoList xs)
+  | .obj kvs => .obj (JView.toGoKvs kvs)
+  | .undecodable => .nil
+def JView.toGoList : List JView → List GoVal
+  | [] => []
+  | x :: xs => x.toGo :: JView.toGoList xs
+def JView.toGoKvs : List (Bytes × JView) → List (Bytes × GoVal)
+  | [] => []
+  | (k, v) :: rest => (k, v.toGo) :: JView.toGoKvs rest
+end
+
+mutual
+/-- a Go value with every integer read as the float64 of the same value (`float64(i)`, exact for the only integer
+DecodeNumeric ever returns, `int(0)`): the number kinds `int` / `float64` are not part of "the decoded number" -/
+def numAsF64 : GoVal → GoVal
+  | .int i => .f64 (Txt.f64OfRat (decide (i < 0)) i.natAbs 1)
+  | .arr xs => .arr (numAsF64List xs)
+  | .obj kvs => .obj (numAsF64Kvs kvs)
+  | v => v
+def numAsF64List : List GoVal → List GoVal
+  | [] => []
+  | x :: xs => numAsF64 x :: numAsF64List xs
+def numAsF64Kvs : List (Bytes × GoVal) → List (Bytes × GoVal)
+  | [] => []
+  | (k, v) :: rest => (k, numAsF64 v) :: numAsF64Kvs rest
+end
+
+end PgVerif.Spec
